@@ -941,6 +941,18 @@ class ConfigInformation:
                             ), "generator has either two parameters (context and config), or none"
                         config.__xpm__.set(k, value, bypass=True)
 
+                        # A generated value may hold configurations: they are
+                        # reachable from this one, hence sealed with it
+                        generated = config.__xpm__.values.get(k, None)
+                        if has_config(generated):
+                            with self.map(k):
+                                self(generated)
+
+                # The pre-tasks are frozen too: a list obtained from the
+                # `pre_tasks` property before sealing is no longer the one of
+                # this configuration
+                config.__xpm__.pre_tasks = list(config.__xpm__.pre_tasks)
+
                 # The lists and dictionaries held as values are frozen too
                 for name, value in config.__xpm__.values.items():
                     if isinstance(value, (list, dict)):
